@@ -57,6 +57,23 @@ Theorem C04_crossing_sends_deadlock : forall cfg nn o1 o2 a b,
 Proof. exact crossing_sends_deadlock_lemma. Qed.
 Print Assumptions C04_crossing_sends_deadlock.
 
+(* the general form of D4/D5: a set of operations each polling for a lock held by a member of the set (triples operation / node /
+   holder) stays exactly so under every continuation, in every lock-disciplined configuration *)
+Theorem C04_wait_for_knot_is_deadlock : forall cfg tr s s' B,
+  all_disciplined cfg -> Own s -> knot s B -> run cfg s tr = Some s' ->
+  forall o n o', In (o, n, o') B -> done s' o = false /\ lock_of s' n = Some (o', false).
+Proof. exact knot_is_deadlock. Qed.
+Print Assumptions C04_wait_for_knot_is_deadlock.
+
+(* D5, cyclic: 0 -> 1 -> 2 -> 0 *)
+Theorem C04_cyclic_sends_deadlock :
+  exists s, run cfg_cycle (init 3 cfg_cycle) cycle_trace = Some s /\
+    forall tr' s', run cfg_cycle s tr' = Some s' ->
+      done s' 0 = false /\ done s' 1 = false /\ done s' 2 = false /\
+      lock_of s' 0 = Some (0, false) /\ lock_of s' 1 = Some (1, false) /\ lock_of s' 2 = Some (2, false).
+Proof. exact cyclic_sends_deadlock_lemma. Qed.
+Print Assumptions C04_cyclic_sends_deadlock.
+
 (* D6: both two-qubit gates return, then a request orphaned by the timeout branch is granted: the lock of node 0 is held for ever
    although every operation has completed (trace recorded from the implementation) *)
 Theorem C04_orphan_lock_leak :
